@@ -681,18 +681,18 @@ Section Expr.
   Lemma cexpr_correct sc :
     forall e hint t,
       type_of tys sc e = Some t ->
-      hint_ok tys hint e = true -> float_mod_free tys e = true -> lits_small e = true ->
+      hint_ok tys hint e = true -> float_mod_free tys e = true ->
       exists code, cexpr tys hint e = Some (code, t) /\
                    forall r ls, sim sc r ls -> dflags fo tys r e = [] -> esim t code (eval r e) ls.
   Proof.
-    induction e; intros hint t0 Ht Hh Hm Hl; simpl in Ht, Hh, Hm, Hl.
+    induction e; intros hint t0 Ht Hh Hm; simpl in Ht, Hh, Hm.
     - (* literal *)
       destruct ((0 <=? z) && (z <=? imax t)) eqn:R; [|discriminate]. injection Ht as <-.
-      apply andb_true_iff in R. destruct R as [R0 R1]. apply Z.leb_le in R0, R1. apply Z.leb_le in Hl.
+      apply andb_true_iff in R. destruct R as [R0 R1]. apply Z.leb_le in R0, R1.
       assert (Eh : eff_ty hint (TI t) = TI t).
       { destruct hint as [h|]; simpl in *; [apply ty_eqb_eq in Hh; assumption|reflexivity]. }
       simpl. rewrite Eh. simpl.
-      rewrite (proj2 (Z.leb_le _ _) Hl), (proj2 (Z.leb_le _ _) R1). simpl.
+      rewrite (proj2 (Z.leb_le _ _) R1). simpl.
       eexists. split; [reflexivity|]. intros r ls [Hlen Hsim] _ st. simpl.
       destruct (imax_lt_wmod t) as [M1 M2].
       split; [apply in_range_iff; lia|].
@@ -710,10 +710,10 @@ Section Expr.
       destruct (Hsim _ _ Hi Hn) as [V L]. split; [assumption|].
       rewrite exec_l_cons, (exec_lget fo _ _ _ _ L), exec_l_nil. reflexivity.
     - (* parentheses *)
-      destruct (IHe hint t0 Ht Hh Hm Hl) as (c & Ec & Sc).
+      destruct (IHe hint t0 Ht Hh Hm) as (c & Ec & Sc).
       exists c. split; [assumption|]. exact Sc.
     - (* unary minus *)
-      destruct (IHe hint t0 Ht Hh Hm Hl) as (c & Ec & Sc).
+      destruct (IHe hint t0 Ht Hh Hm) as (c & Ec & Sc).
       pose proof (ety_of _ _ _ Ht) as Et.
       simpl. rewrite Ec.
       assert (N : forall r ls, sim sc r ls -> dflags fo tys r (ENeg e) = [] ->
@@ -728,7 +728,7 @@ Section Expr.
       destruct t0; eexists; (split; [reflexivity|exact N]).
     - (* not *)
       destruct (type_of tys sc e) as [[[]|]|] eqn:Te; try discriminate. injection Ht as <-.
-      destruct (IHe hint _ eq_refl Hh Hm Hl) as (c & Ec & Sc).
+      destruct (IHe hint _ eq_refl Hh Hm) as (c & Ec & Sc).
       simpl. rewrite Ec. eexists. split; [reflexivity|]. intros r ls Hs Hd. apply not_case. apply (Sc r ls Hs). exact Hd.
     - (* power *)
       destruct (type_of tys sc e1) as [ta|] eqn:Ta; [|discriminate].
